@@ -188,11 +188,14 @@ static int ep_setup_inner(Endpoint *ep, int side, Conn *c, const Plan *p, const 
 			if (p->extra_roots > 0) trustlen += creds_extra_roots((int)p->extra_roots, trust + trustlen, sizeof(trust) - trustlen);
 		}
 		int have_cert = side == 1 || p->mutual || (p->cred_mode & 4);
+		/* the verify depth is the smallest one that admits the honest chain (0 when the root issues the leaves: "no
+		 * intermediate CA certificates"), the default or the maximum */
+		int vdepth = (int[]){ TLS_DEFAULT_VERIFY_DEPTH, (int)p->depth - 1, (int)p->depth - 1, TLS_MAX_VERIFY_DEPTH }[(mix64((uint64_t)p->plan_seed ^ 0x7d) >> (8 * side)) & 3];
 		if (ctx_setup_from_files(&ep->ctx, &ep->rbuf, have_cert ? (side == 0 ? cs->cli_chain : cs->srv_chain) : NULL,
 				have_cert ? (side == 0 ? cs->cli_chain_len : cs->srv_chain_len) : 0,
 				side == 0 ? &cs->cli_sign.key : &cs->srv_sign.key,
 				side == 1 && cs->tlcp ? &cs->srv_enc.key : NULL,
-				want_trust ? trust : NULL, trustlen, TLS_DEFAULT_VERIFY_DEPTH) != 1) return -1;
+				want_trust ? trust : NULL, trustlen, vdepth) != 1) return -1;
 	}
 	ep->conn = calloc(1, sizeof(TLS_CONNECT));
 	if (!ep->conn) die("oom");
